@@ -26,7 +26,7 @@ from framework import Prop
 
 T = "memref<16xi32>"
 # which tree the model mirrors: "all" = with F17 + FC13a (common loop) + FC13b (views) [default, what the committed files
-# expect], "f17" = F17 only, "orig" = the pinned commit
+# expect], "f17" = F17 only, "orig" = the pinned commit, "d30" = "all" + the OPEN repair proposal fixes/FC13c (D30)
 MODEL_FIX = {"fixed": "all"}.get(os.environ.get("C13_MODEL", "all"), os.environ.get("C13_MODEL", "all"))
 
 # ------------------------------------------------------------------------------------------------------------
@@ -54,12 +54,27 @@ DART_CLS = {"snax_alu": "cp", "snax_xdma": "dm", "snax_xdma_mul": "cp" if _dc14a
 
 
 def render(case):
+    """The module: function @f (the one that is compared and executed); with `other`, a second function @g of the same
+    module in front of it or behind it - insert-sync-barrier walks the module ONCE and never resets its pending list
+    between functions (Lean: C13_module_stateless)."""
+    other = case.get("other")
+    parts = []
+    if any(x[0] == "call" for c in [case] + ([other] if other else []) for x in walk_stmts(c["body"])):
+        parts.append(f"func.func private @ext({T}) -> ()\n")
+    fn = render_func(case, "f")
+    if other:
+        g = render_func(other, "g")
+        parts += [g, fn] if case.get("pos", "before") == "before" else [fn, g]
+    else:
+        parts.append(fn)
+    return "".join(parts)
+
+
+def render_func(case, name):
     out = []
     nb = case["nbuf"]
     args = ", ".join(f"%b{i} : {T}" for i in range(nb))
-    if any(x[0] == "call" for x in walk_stmts(case["body"])):
-        out.append(f"func.func private @ext({T}) -> ()")
-    out.append(f"func.func @f({args}, %c0 : i1, %c1 : i1, %lb : index, %ub0 : index, %ub1 : index, %st : index) {{")
+    out.append(f"func.func @{name}({args}, %c0 : i1, %c1 : i1, %lb : index, %ub0 : index, %ub1 : index, %st : index) {{")
     cnt = [0]
 
     def gen(a, b, c, ind):
@@ -141,6 +156,7 @@ def abstract_block(case):
 def abstract_prog(case):
     """Block form (model JSON) derived from the abstract program alone, and the (view result, source) value pairs."""
     views = []
+    eff = []   # [op id, [memref operand values]] of the all-cores operations that access memory (repair FC13c)
     nb = case["nbuf"]
     val = {f"b{i}": i for i in range(nb)}
     val.update({"c0": nb, "c1": nb + 1, "lb": nb + 2, "ub0": nb + 3, "ub1": nb + 4, "st": nb + 5})
@@ -176,10 +192,12 @@ def abstract_prog(case):
                 res.append(leaf(DART_CLS[s[1]], [V(s[2]), V(s[3]), V(s[4])], [R(s[2]), R(s[3])], [R(s[4])]))
             elif k == "call":   # an external function: executed by every core, may read and write its argument
                 res.append(leaf("all", [V(s[1])], [R(s[1])], [R(s[1])]))
+                eff.append([res[-1][1], [V(s[1])]])
             elif k == "clear":  # snax.clear_l1
                 res.append(leaf("all", []))
             elif k == "use":
                 res.append(leaf("all", [V(b) for b in s[1]], [R(b) for b in s[1]], []))
+                eff.append([res[-1][1], sorted({V(b) for b in s[1]})])
             elif k == "sync":
                 res.append(["sync"])
             elif k == "alloc":
@@ -190,6 +208,7 @@ def abstract_prog(case):
                 res.append(["leaf", i, "all", [val[s[1]]], [], [], False])
             elif k == "dealloc":
                 res.append(leaf("all", [V(s[1])], [], [R(s[1])], True))
+                eff.append([res[-1][1], [V(s[1])]])
             elif k == "sel":
                 i = fresh_id()
                 val[s[1]] = nxt[0]
@@ -226,7 +245,7 @@ def abstract_prog(case):
 
     body = block(case["body"])
     body.append(leaf("all", []))  # func.return
-    return body, views
+    return body, views, eff
 
 
 # ------------------------------------------------------------------------------------------------------------
@@ -831,7 +850,12 @@ class C13(Prop):
         n = 400 if tier == "quick" else 6000
         for _ in range(n):
             r = random.Random(rng.getrandbits(48))
-            yield gen_kernel(r) if r.random() < 0.25 else gen_case(r)
+            c = gen_kernel(r) if r.random() < 0.25 else gen_case(r)
+            if r.random() < 0.15:  # a second function in the module, before or after the one under test
+                o = gen_kernel(r) if r.random() < 0.5 else gen_case(r)
+                c["other"] = {"nbuf": o["nbuf"], "body": o["body"]}
+                c["pos"] = r.choice(["before", "before", "after"])
+            yield c
         if tier == "thorough":
             yield from exhaustive_cases()
 
@@ -842,14 +866,16 @@ class C13(Prop):
         return {"out": out["out"], "in_real": out["in"], "low": out["low"]}
 
     def requests(self, case):
-        body, views = abstract_prog(case)
-        return [{"fn": "c13.insert", "args": {"body": body, "fix": MODEL_FIX, "views": views if MODEL_FIX == "all" else []}}]
+        body, views, eff = abstract_prog(case)
+        full = MODEL_FIX in ("all", "d30")
+        return [{"fn": "c13.insert", "args": {"body": body, "fix": "all" if full else MODEL_FIX, "views": views if full else [],
+                                              "eff": eff if MODEL_FIX == "d30" else []}}]
 
     def model(self, case, answers):
         a = answers[0]
         if "err" in a:
             return {"model_error": a["err"]}
-        if MODEL_FIX == "all" and not a["ok"]["rootVisible"] and not any(x[0] == "sel" for x in walk_stmts(case["body"])):
+        if MODEL_FIX in ("all", "d30") and not a["ok"]["rootVisible"] and not any(x[0] == "sel" for x in walk_stmts(case["body"])):
             return {"model_error": "generated program is outside the theorems' clause RootVisible"}
         if not a["ok"]["nodup"] or not a["ok"]["compoundAll"]:
             return {"model_error": "the block form violates the theorems' well-formedness predicate"}
@@ -900,13 +926,15 @@ class C13(Prop):
         if k != case.get("kind"):
             return k
         s = str(case["body"])
-        tags = (["cloop"] if "], [" in s and any(isinstance(x, list) and x and x[0] == "for" and len(x) > 2 and isinstance(x[2], list)
+        tags = (["module"] if case.get("other") else []) + (["cloop"] if "], [" in s and any(isinstance(x, list) and x and x[0] == "for" and len(x) > 2 and isinstance(x[2], list)
                                                    for x in walk_stmts(case["body"])) else []) + [t for t, w in (("loop", "'for'"), ("if", "'if'"), ("all", "'use'"), ("view", "'sv'"), ("dart", "'dart'"),
                                ("dealloc", "'dealloc'")) if w in s]
         return k + ":" + "+".join(tags or ["line"])
 
     def shrink(self, case):
         body = case["body"]
+        if case.get("other"):
+            yield {k: v for k, v in case.items() if k not in ("other", "pos")}
 
         def variants(stmts):
             for i, s in enumerate(stmts):
